@@ -32,7 +32,8 @@ def _spec(module):
     if module == 'parse':
         from . import bnd, bnd3, parse, tab
         names3 = ['bad_BND3_skip_two', 'good_skip_two', 'bad_BND3_lookahead', 'good_lookahead', 'bad_BND3_loop_steps_over',
-                  'good_loop', 'h_skip', 'bad_BND3_call', 'good_call', 'bad_BND3_index', 'good_index']
+                  'good_loop', 'h_skip', 'bad_BND3_call', 'good_call', 'bad_BND3_index', 'good_index',
+                  'bad_BND3_handback', 'good_handback', 'h_place', 'bad_BND3_place_call', 'good_place_call', 'use_handback']
         return [{
             'units': {'cJSON.c': 'parse_bad.c', 'cJSON_Utils.c': 'utils_min.c'},
             'rules': [bnd.bnd_parse, parse.c10_structure, parse.bnd6, tab.tab13,
